@@ -417,11 +417,11 @@ def rt_script(cid, P, fmt, with_solve, with_z):
          "WRITE h1 b.%s %s" % (e, fmt), "CAT b.%s" % e, "READ h2 b.%s %s" % (e, fmt), "DUMPO h2"]
     if fmt == "MPS":
         # LP rendering of the same problem; MPS -> LP -> MPS and LP -> MPS -> LP
-        L += ["WRITE h0 c.lp LP", "READ h3 c.lp LP", "DUMPO h3",            # h3 = read_lp(write_lp P)
-              "WRITE h1 d.lp LP", "READ h4 d.lp LP", "DUMPO h4",            # MPS -> LP
-              "WRITE h4 e.mps MPS", "READ h5 e.mps MPS", "DUMPO h5",        # MPS -> LP -> MPS
-              "WRITE h3 f.mps MPS", "READ h6 f.mps MPS", "DUMPO h6",        # LP -> MPS
-              "WRITE h6 g.lp LP", "READ h7 g.lp LP", "DUMPO h7"]            # LP -> MPS -> LP
+        L += ["WRITE h0 c.lp LP", "CAT c.lp", "READ h3 c.lp LP", "DUMPO h3",            # h3 = read_lp(write_lp P)
+              "WRITE h1 d.lp LP", "CAT d.lp", "READ h4 d.lp LP", "DUMPO h4",            # MPS -> LP
+              "WRITE h4 e.mps MPS", "CAT e.mps", "READ h5 e.mps MPS", "DUMPO h5",       # MPS -> LP -> MPS
+              "WRITE h3 f.mps MPS", "CAT f.mps", "READ h6 f.mps MPS", "DUMPO h6",       # LP -> MPS
+              "WRITE h6 g.lp LP", "CAT g.lp", "READ h7 g.lp LP", "DUMPO h7"]            # LP -> MPS -> LP
     if with_solve:
         L += ["SOLVE h0", "SOLVE h1"]
     if with_z:
@@ -488,10 +488,9 @@ def run_roundtrip_check(ck, fmt, pr, gen):
             """consume WRITE (+CAT) READ DUMPO; returns (problem or None, renames, text)"""
             w = o.next("WRITE")
             text = None
-            if label in ("a", "b", "z1", "z2"):
-                text = cat_bytes(o.next("CAT"))
-                if text is not None:
-                    texts.append(text)
+            text = cat_bytes(o.next("CAT"))
+            if text is not None:
+                texts.append(text)
             r = o.next("READ")
             d = o.next("P")
             Pn = dump_of(d) if d is not None and d[0][0] == "P" else None
@@ -642,7 +641,11 @@ def run_roundtrip_check(ck, fmt, pr, gen):
     ck.cov["comparison_histogram"] = hist
     ck.cov["solved_pairs_compared"] = nsolved
     ck.cov["failing_cases_by_family"] = {}
+    seen2 = set()
     for (cid, what, fm, texts) in fails:
+        if cid in seen2:
+            continue        # later stages of a case that already failed are consequences
+        seen2.add(cid)
         k3 = label_failure(probs[cid], fm, texts, what) or "unexplained"
         ck.cov["failing_cases_by_family"][k3] = ck.cov["failing_cases_by_family"].get(k3, 0) + 1
     ck.cov["evaluations"] = len(want) + nsolved
